@@ -36,19 +36,28 @@ def load_gitignore(directory: Path) -> pathspec.PathSpec | None:
     return _read_ignore_file(gitignore)
 
 
-def load_tool_ignore(tool_name: str, start_dir: Path) -> pathspec.PathSpec | None:
+def find_tool_ignore(tool_name: str, start_dir: Path) -> Path | None:
     """
     Walk up from `start_dir` looking for `.{tool_name}ignore` (e.g., `.flowmarkignore`).
-    Returns compiled `PathSpec` from first found, or `None`.
+    Returns the path of the first one found, or `None`.
     """
     ignore_name = f".{tool_name}ignore"
     current = start_dir.resolve()
     while True:
         candidate = current / ignore_name
         if candidate.is_file():
-            return _read_ignore_file(candidate)
+            return candidate
         parent = current.parent
         if parent == current:
             break
         current = parent
     return None
+
+
+def load_tool_ignore(tool_name: str, start_dir: Path) -> pathspec.PathSpec | None:
+    """
+    Walk up from `start_dir` looking for `.{tool_name}ignore` (e.g., `.flowmarkignore`).
+    Returns compiled `PathSpec` from first found, or `None`.
+    """
+    ignore_file = find_tool_ignore(tool_name, start_dir)
+    return _read_ignore_file(ignore_file) if ignore_file is not None else None
